@@ -343,6 +343,10 @@ fn collect_mutations(fields: &[Field], t: &TV, path: &mut Vec<PathEl>, out: &mut
                 }
                 (Sch::TableArray(inner), TV::Array(a)) => {
                     out.push(Mutation { path: path.clone(), kind: MutKind::Retype(fld.key.to_string(), "tablearray->str") });
+                    if !a.is_empty() {
+                        // `[dependencies]` written by analogy with `[buildpack]`: one well-formed element as a plain table
+                        out.push(Mutation { path: path.clone(), kind: MutKind::Retype(fld.key.to_string(), "tablearray->table") });
+                    }
                     for (i, e) in a.iter().enumerate() {
                         path.push(PathEl::Key(fld.key.to_string()));
                         path.push(PathEl::Idx(i));
@@ -388,6 +392,10 @@ fn apply(doc: &TV, m: &Mutation) -> TV {
                 "str->int" => TV::Int(7),
                 "bool->str" => TV::s("true"),
                 "array->str" | "table->str" | "tablearray->str" => TV::s("x"),
+                "tablearray->table" => match slot {
+                    TV::Array(a) if !a.is_empty() => a[0].clone(),
+                    _ => TV::s("x"),
+                },
                 "elem->int" => match slot {
                     TV::Array(a) => {
                         let mut a = a.clone();
@@ -774,7 +782,7 @@ fn ty_from_name(s: &str) -> Ty {
 }
 
 pub fn run(ctx: &Ctx) {
-    ctx.set_rule("valid documents for ComponentBuildpackDescriptor, CompositeBuildpackDescriptor, BuildpackDescriptor (from component and composite documents), BuildpackPlan, LayerContentMetadata, Launch, Store, PackageDescriptor generated from the harness's own schema of the spec (every optional key present with probability 1/2, 0..3 array-of-table elements, nested free-form metadata, nasty strings) and emitted by the harness's emitter; for each document EVERY single-point mutation: unknown key in each table and array-of-tables element outside metadata, deletion of each required key, retyping of each scalar/array/table, adding order/targets/stacks (also as zero-length arrays), inserting a key that the format defines for a different table, respelling each key of the table (clear-env -> clear_env / clearEnv / Clear-env, keywords -> keyword, os -> oss; renamed when present, inserted when absent); negative control: unknown key inside metadata. Oracle: valid => accepted, classified, values equal with spec defaults filled; mutation => rejected (with the composite/component classification rules). Non-trivial: mutation applied below the top level of a document that has at least one array-of-tables element; distinct = hash of the mutated text.");
+    ctx.set_rule("valid documents for ComponentBuildpackDescriptor, CompositeBuildpackDescriptor, BuildpackDescriptor (from component and composite documents), BuildpackPlan, LayerContentMetadata, Launch, Store, PackageDescriptor generated from the harness's own schema of the spec (every optional key present with probability 1/2, 0..3 array-of-table elements, nested free-form metadata, nasty strings) and emitted by the harness's emitter; for each document EVERY single-point mutation: unknown key in each table and array-of-tables element outside metadata, deletion of each required key, retyping of each scalar/array/table (an array of tables also as one plain table holding its first element), adding order/targets/stacks (also as zero-length arrays), inserting a key that the format defines for a different table, respelling each key of the table (clear-env -> clear_env / clearEnv / Clear-env, keywords -> keyword, os -> oss; renamed when present, inserted when absent); negative control: unknown key inside metadata. Oracle: valid => accepted, classified, values equal with spec defaults filled; mutation => rejected (with the composite/component classification rules). Non-trivial: mutation applied below the top level of a document that has at least one array-of-tables element; distinct = hash of the mutated text.");
     ctx.assume("store.toml without [metadata] is not generated (spec silent); a component document that already has an empty targets/stacks list plus an added order is not judged");
     for (_p, v) in ctx.regress_files() {
         replay(ctx, "", &v["case"]);
